@@ -277,3 +277,95 @@ func VerifC20_DescList() {
 		}
 	}
 }
+
+func init() {
+	vrt.Register("VerifC20_Speculative", VerifC20_Speculative)
+	vrt.Register("VerifC20_NestedRead", VerifC20_NestedRead)
+}
+
+// VerifC20_Speculative: AppendSpeculativeLength / FinishSpeculativeLength around a payload of L bytes behind PRE
+// bytes of earlier output, in a buffer with DELTA spare bytes of capacity: the result is PRE bytes, the varint
+// of L, the payload - whether the prefix fits the reserved bytes, shifts in place or needs a new buffer.
+func VerifC20_Speculative() {
+	l := vrt.Param("L")
+	pre := vrt.Param("PRE")
+	delta := vrt.Param("DELTA")
+	buf := make([]byte, pre, pre+speculativeLength+l+delta)
+	for i := range buf {
+		buf[i] = byte(0xA0 + i)
+	}
+	buf, pos := AppendSpeculativeLength(buf)
+	vrt.Assert(pos == pre && len(buf) == pre+speculativeLength, "C20.speculative.append")
+	payload := make([]byte, l)
+	for i := range payload {
+		payload[i] = byte(i*7 + 1)
+	}
+	if l > 0 {
+		payload[0] = vrt.U8()
+		payload[l-1] = vrt.U8()
+	}
+	buf = append(buf, payload...)
+	vrt.Assert(cap(buf)-len(buf) == delta, "C20.speculative.harness-capacity")
+	out := FinishSpeculativeLength(buf, pos)
+	var want []byte
+	for i := 0; i < pre; i++ {
+		want = append(want, byte(0xA0+i))
+	}
+	want = gpw.AppendVarint(want, uint64(l))
+	want = append(want, payload...)
+	vrt.Reach("done")
+	vrt.Assert(vrt.BytesEq(out, 0, len(out), want, 0, len(want)), "C20.speculative.length-prefix-and-payload")
+}
+
+// VerifC20_NestedRead: ReadBaseTypeWithDesc / ReadAnyWithDesc of message{Inner in=1; int32 t=2}, Inner{string y=1; K z=2}
+// where y has YLEN bytes (the nested length prefix takes 1, 2 or 3 bytes) and z, the last field of the nested
+// message, is short: every field of the nested message is returned, none leaks into the parent.
+func VerifC20_NestedRead() {
+	ylen := vrt.Param("YLEN")
+	inner := proto.VerifNewMessage("Inner")
+	proto.VerifAddField(inner, 1, "y", "y", proto.VerifBasic(proto.STRING), false)
+	proto.VerifAddField(inner, 2, "z", "z", proto.VerifBasic(proto.BOOL), false)
+	proto.VerifBuild(inner)
+	outer := proto.VerifNewMessage("Outer")
+	proto.VerifAddField(outer, 1, "in", "in", inner, false)
+	proto.VerifAddField(outer, 2, "t", "t", proto.VerifBasic(proto.INT32), false)
+	proto.VerifBuild(outer)
+	y := make([]byte, ylen)
+	for i := range y {
+		y[i] = 'y'
+	}
+	z := vrt.Bool()
+	tv := vrt.U8() & 0x7f
+	var ib []byte
+	ib = gpw.AppendBytes(gpw.AppendTag(ib, 1, gpw.BytesType), y)
+	zb := uint64(0)
+	if z {
+		zb = 1
+	}
+	ib = gpw.AppendVarint(gpw.AppendTag(ib, 2, gpw.VarintType), zb)
+	var b []byte
+	b = gpw.AppendBytes(gpw.AppendTag(b, 1, gpw.BytesType), ib)
+	b = gpw.AppendVarint(gpw.AppendTag(b, 2, gpw.VarintType), uint64(tv))
+	p := BinaryProtocol{Buf: b}
+	v, err := p.ReadAnyWithDesc(outer, false, true, true, true)
+	vrt.Assert(err == nil, "C20.nested-read.noerror")
+	if err != nil {
+		return
+	}
+	vrt.Reach("read")
+	m, ok := v.(map[string]interface{})
+	vrt.Assert(ok && len(m) == 2, "C20.nested-read.outer-fields")
+	if !ok {
+		return
+	}
+	im, ok2 := m["in"].(map[string]interface{})
+	vrt.Assert(ok2 && len(im) == 2, "C20.nested-read.inner-fields")
+	if ok2 {
+		zz, isB := im["z"].(bool)
+		vrt.Assert(isB && zz == z, "C20.nested-read.last-inner-field")
+		ys, isS := im["y"].(string)
+		vrt.Assert(isS && len(ys) == ylen, "C20.nested-read.inner-string")
+	}
+	tt, isI := m["t"].(int32)
+	vrt.Assert(isI && tt == int32(tv), "C20.nested-read.outer-field-after")
+}
